@@ -324,6 +324,36 @@ theorem absE_swapSelfV (el : Elem α) (a : V α) (ha : a.idx < 2) :
   simp only [Spec.swapSelfV, Spec.swapSelfE]
   rw [absE_assignV1 _ _ _ _ _ (by simpa using ha) (by simpa using ha), absE_ctorV1, absE_ctorV2]
 
+@[simp] theorem convAssignV_idx (el : Elem α) (fb : α → Bool) (cat : Arg) (v : V α) (j : Nat) (x : α) :
+    (Spec.convAssignV el fb cat v j x).1.idx = j := by unfold Spec.convAssignV; split <;> rfl
+@[simp] theorem convCtorV_idx (el : Elem α) (cat : Arg) (j : Nat) (x : α) : (Spec.convCtorV el cat j x).1.idx = j := rfl
+
+theorem consArgFb_noFb (el : Elem α) (cat : Arg) (x : α) : Spec.consArgFb el Spec.noFb cat x = consArg el cat x := by
+  simp [Spec.consArgFb, Spec.noFb]
+
+theorem fbAssign_noFb (mv : Bool) (d s : V α) : Spec.fbAssign Spec.noFb mv d s = false := by
+  simp [Spec.fbAssign, Spec.noFb]
+
+theorem fbHit_noFb (st : List (V α)) (op : Op α) : Spec.fbHit Spec.noFb st op = false := by
+  cases op <;> simp only [Spec.fbHit]
+  · split <;> simp [fbAssign_noFb]
+  · split <;> simp [Spec.fbConv, Spec.noFb]
+
+/-- every special member is the plain copy: the detour through a temporary is invisible -/
+theorem viaTempOK_plain (cat : Arg) (v : V α) (j : Nat) (x : α) : Spec.ViaTempOK (plainElem : Elem α) cat v j x := by
+  constructor <;> intro _ <;> cases cat <;> rfl
+
+/-- the step of `optional(U&&)` / `operator=(U&&)` seen through `absO` -/
+theorem absO_convStep (el : Elem α) (cat : Arg) (asg : Bool) (v : V α) (x : α) :
+    Spec.absO (if asg then (Spec.convAssignV el Spec.noFb cat v 1 x).1 else (Spec.convCtorV el cat 1 x).1)
+      = some (match Spec.absO v with
+              | some d => if asg then (asgArg el cat d x).1 else (consArg el cat x).1
+              | none => (consArg el cat x).1) := by
+  cases v with
+  | mk i y =>
+    by_cases h : i = 1 <;> cases asg <;>
+      simp [Spec.absO, Spec.convAssignV, Spec.convCtorV, consArgFb_noFb, h]
+
 theorem beq1 (n : Nat) : ((n == 1) = true ∧ n = 1) ∨ ((n == 1) = false ∧ ¬ n = 1) := by
   by_cases h : n = 1 <;> simp [h]
 
